@@ -40,8 +40,8 @@ Core-only executable model. It mirrors the code that exists (oddities included):
 * `TransparencyManager.ChangeLeader(a)`: closes the socket of every link when the address changes or is cleared.
 
 The leader is abstract: `Event.leaderMsg c m` = "frame `m` arrives on the link of connection `c`" — its content is an
-input. Ghost fields (never read by the transition function): `Link.pend` (RequestIds written to this link instance and
-not answered by the leader yet), `Conn.asked` (RequestIds of the requests received), `Conn.got` (RequestIds of the
+input. Ghost fields (never read by the transition function): `Link.pend` (RequestIds of the LOCK / UNLOCK commands
+written to this link instance which the leader has not answered yet), `Conn.asked` (RequestIds of the requests received), `Conn.got` (RequestIds of the
 lock / unlock results handed to the client, in order), `Node.orphans`.
 Granularity: one event = one complete reaction; a `Write` to a link whose socket is up succeeds.
 -/
@@ -244,7 +244,7 @@ def renderText (m : TextMode) (r : LockRes) : ToClient :=
 def newLink (ic : Option (Nat × Nat)) : Link :=
   match ic with
   | none => {}
-  | some (r, cid) => { latestT := some .init, latestR := r, initC := some (r, cid), pend := [r] }
+  | some (r, cid) => { latestT := some .init, latestR := r, initC := some (r, cid) }
 
 def openFwd (ic : Option (Nat × Nat)) : List Fwd :=
   match ic with
@@ -259,7 +259,8 @@ def checkClient (s : Node) (x : Conn) (ic : Option (Nat × Nat)) : Option (Link 
   | none => if s.role.opens ∧ s.addr = .live then some (newLink ic, true, openFwd ic) else none
 
 /-- `Write(command)`: the command is on the wire and remembered as the latest one -/
-def setLatest (l : Link) (t : CType) (r : Nat) : Link := { l with latestT := some t, latestR := r, pend := l.pend ++ [r] }
+def setLatest (l : Link) (t : CType) (r : Nat) : Link :=
+  { l with latestT := some t, latestR := r, pend := if t = .lock ∨ t = .unlock then l.pend ++ [r] else l.pend }
 
 def clearLatest (l : Link) (r : Nat) : Link := if l.latestR = r then { l with latestT := none } else l
 
@@ -268,8 +269,11 @@ goroutine) had recorded the command as the latest one — the comparison with `l
 nothing is cleared; `Write` then records a command that has already been answered -/
 def clearLatestE (early : Bool) (l : Link) (r : Nat) : Link := if early then l else clearLatest l r
 
-/-- the link after the leader's answer to `r` was read (ghost: no longer pending) -/
-def answered (early : Bool) (l : Link) (r : Nat) : Link := { clearLatestE early l r with pend := l.pend.erase r }
+/-- the link after the leader's answer to `r` was read -/
+def answered (early : Bool) (l : Link) (r : Nat) : Link := clearLatestE early l r
+
+/-- … a lock result (ghost: the command is no longer pending) -/
+def answeredLk (early : Bool) (l : Link) (r : Nat) : Link := { clearLatestE early l r with pend := l.pend.erase r }
 
 /-- the RequestId of the lock / unlock result a client message carries -/
 def lockShaped : ToClient → Option Nat
@@ -415,7 +419,7 @@ def relay (s : Node) (c : Nat) (x : Conn) (l : Link) (m : LeaderMsg) (early : Bo
   match x.kind with
   | .binary =>
     match m with
-    | .lockRes r => (addGot { x with link := some (answered early l r.rid) } (.lockRes r), [(c, .lockRes r)])
+    | .lockRes r => (addGot { x with link := some (answeredLk early l r.rid) } (.lockRes r), [(c, .lockRes r)])
     | .callRes rid res content => ({ x with link := some (answered early l rid) }, [(c, .callRes rid res content)])
     | .initRes rid res it =>
       let l₁ := answered early l rid
@@ -428,7 +432,7 @@ def relay (s : Node) (c : Nat) (x : Conn) (l : Link) (m : LeaderMsg) (early : Bo
   | .text =>
     match m with
     | .lockRes r =>
-      let l₁ := answered early l r.rid
+      let l₁ := answeredLk early l r.rid
       match x.awaiting with
       | some (a, md) => if a = r.rid then textDeliver x l₁ md r c else ({ x with link := some l₁ }, [])
       | none => ({ x with link := some l₁ }, [])
